@@ -223,6 +223,9 @@ def gen_scenario(ctx):
     files = gen_tree(ctx)
     mode = rng.choice(['inplace', 'inplace', 'output', 'stdout', 'stdin', 'stdin-output', 'invalid'])
     paths = sorted(files)
+    # the --output target may exist already, longer than anything written in this run (an earlier result for a larger module)
+    if rng.random() < 0.5:
+        files[rng.choice(['out.min.py', 'o.py'])] = rng.choice(CONTENTS) + b'# previous result ' + b'p' * rng.randint(0, 80) + b'\n'
     dirs = sorted(set(os.path.dirname(p) for p in paths if os.path.dirname(p)) | set(['pkg'] if any(p.startswith('pkg/') for p in paths) else []))
     args = []
     stdin = b''
@@ -387,8 +390,22 @@ def check_scenario_oracles(ctx, sc, r, post):
     files, api, force = sc['files'], sc['api'], sc['force']
     viol = []
     # C15: every file is pre or complete api(pre) (or the untouched source when larger)
+    target = None
+    for i, a in enumerate(sc['args'][:-1]):
+        if a in ('--output', '-o'):
+            target = sc['args'][i + 1]
     for p, pre in files.items():
         now = post.get(p)
+        if p == target and sc['mode'] in ('output', 'stdin-output'):
+            # an --output file that existed before: afterwards it is what it was, or the whole result for the source that was read
+            pa = [a for a in sc['args'] if not a.startswith('-') and a != target]
+            src = sc['stdin'] if sc['mode'] == 'stdin-output' else (files.get(pa[0]) if pa else None)
+            allowed = [pre] + ([src] if src is not None else [])
+            if src is not None and api.get(src) is not None:
+                allowed.append(api[src].encode('utf-8'))
+            if now not in allowed:
+                viol.append(('C15', '--output file %s holds neither its earlier bytes nor the complete result for the source' % p))
+            continue
         allowed = [pre]
         out = api.get(pre)
         if out is not None:
@@ -419,7 +436,9 @@ def check_scenario_oracles(ctx, sc, r, post):
                 src_len = len(files[pa[0]])
         if src_len is not None and len(r['stdout']) > src_len:
             viol.append(('C14', 'stdout carries %d bytes for a %d byte source' % (len(r['stdout']), src_len)))
-    if not force and 'out.min.py' in post:
+    # the --output file as this run left it (a run that did not name it, or that failed before writing, leaves an earlier file alone)
+    if not force and sc['mode'] in ('output', 'stdin-output') and 'out.min.py' in post and r['exit'] == 0 \
+            and post['out.min.py'] != files.get('out.min.py'):
         pa = [a for a in sc['args'] if not a.startswith('-') and a != 'out.min.py']
         src = sc['stdin'] if sc['mode'] == 'stdin-output' else (files.get(pa[0]) if pa else None)
         if src is not None and post['out.min.py'] is not None and len(post['out.min.py']) > len(src):
